@@ -269,3 +269,77 @@
 ;=> ((1 2) x y 1 2)
 (dot-template z)
 ;=> (z . z)
+===
+(define-syntax dot-only-ellipsis
+  (syntax-rules ()
+    ((_ a ...) (a ... . end))))
+(dot-only-ellipsis)
+;=> end
+(dot-only-ellipsis 1)
+;=> (1 . end)
+(dot-only-ellipsis 1 2)
+;=> (1 2 . end)
+===
+(define-syntax dot-two-ellipses
+  (syntax-rules ()
+    ((_ (a ...) (b ...)) ((a ... b ... . tail) (b ... . a-done)))))
+(dot-two-ellipses () ())
+;=> (tail a-done)
+(dot-two-ellipses (1) ())
+;=> ((1 . tail) a-done)
+(dot-two-ellipses () (2 3))
+;=> ((2 3 . tail) (2 3 . a-done))
+===
+(define-syntax proper-only
+  (syntax-rules ()
+    ((_ (a b) c) (pair a b c))
+    ((_ x c) (other x c))))
+(proper-only (1 2) 3)
+;=> (pair 1 2 3)
+(proper-only (1 . 2) 3)
+;=> (other (1 . 2) 3)
+(proper-only (1 2 . 3) 4)
+;=> (other (1 2 . 3) 4)
+===
+(define-syntax two-exact
+  (syntax-rules ()
+    ((_ a b) (two a b))))
+(two-exact 1 2)
+;=> (two 1 2)
+(two-exact 1 . 2)
+;=> !
+===
+(define-syntax all-proper
+  (syntax-rules ()
+    ((_ a ...) (all a ...))))
+(all-proper 1 2 3)
+;=> (all 1 2 3)
+(all-proper 1 2 . 3)
+;=> !
+===
+(define-syntax show-ops
+  (syntax-rules ()
+    ((_ x ...) (shown x ...))))
+(show-ops 1 (show-ops 2))
+;=> (shown 1 (show-ops 2))
+(show-ops (show-ops))
+;=> (shown (show-ops))
+===
+(define-syntax tail-after-empty
+  (syntax-rules ()
+    ((_ a b ... end) (closed a b ...))
+    ((_ a b ...) (open a b ...))))
+(tail-after-empty 1)
+;=> (open 1)
+(tail-after-empty 1 end)
+;=> (closed 1)
+(tail-after-empty 1 2 3)
+;=> (closed 1 2)
+===
+(define-syntax nested-two-levels
+  (syntax-rules ()
+    ((_ (k (a b)) ...) ((k a b) ...))))
+(nested-two-levels (x (1 2)) (y (3 4)))
+;=> ((x 1 2) (y 3 4))
+(nested-two-levels)
+;=> ()
